@@ -9,6 +9,11 @@ pub enum Enc {
     Zstd,
 }
 
+/// `VERIF_ONLY_ENC=zstd` pins the encoding the codec monitors draw (memcheck leg over the C library).
+pub fn forced_enc() -> Option<Enc> {
+    std::env::var("VERIF_ONLY_ENC").ok().and_then(|s| Enc::from_name(&s))
+}
+
 impl Enc {
     pub fn name(self) -> &'static str {
         match self {
